@@ -199,7 +199,8 @@ TIES = {
                           "unit": "rdflib_parse", "gen": "RdflibParseGen", "tie": "RdflibRoundTrip", "props": ["C02", "C04", "C15"],
                           "needs": ["lookup_enc", "lookup_dec", "options", "encode", "encode_stmt", "flows", "streams", "decode", "decoder_base", "decoder", "stmt_layout",
                                     "generic_sink", "generic_parse", "generic_serialize", "generic_round_trip", "rdflib_parse"],
-                          "theorems": ["rdflib_reads_frames", "C04_source_rdflib_reads_valid_streams", "C04_source_rdflib_exact", "C04_source_rdflib_flat_parser"]},
+                          "theorems": ["rdflib_reads_frames", "C04_source_rdflib_reads_valid_streams", "C04_source_rdflib_exact", "C04_source_rdflib_flat_parser",
+                                       "C15_source_flat_parsers_correspond"]},
     # C02 end to end on translated source: the frames the translated rdflib driver yields (a Graph through a TripleStream, a Dataset's
     # quads() through a QuadStream), through the translated rdflib flat parser, give back the objects of the statements (no model in the conclusion)
     "rdflib_end_to_end": {"sources": ["pyjelly/integrations/rdflib/serialize.py", "pyjelly/integrations/rdflib/parse.py", "pyjelly/serialize/encode.py",
@@ -209,6 +210,14 @@ TIES = {
                                     "generic_sink", "generic_parse", "generic_serialize", "generic_round_trip", "rdflib_serialize", "rdflib_drivers", "rdflib_parse",
                                     "rdflib_round_trip"],
                           "theorems": ["C02_end_to_end_rdflib_graph", "C02_end_to_end_rdflib_dataset_quads"]},
+    # C15, serializers, on translated source: the generic triples driver over a sink and the rdflib triples driver over a Graph with the
+    # corresponding statements, on streams made from the same options, yield the same list of message objects
+    "serializers_agree": {"sources": ["pyjelly/integrations/generic/serialize.py", "pyjelly/integrations/rdflib/serialize.py", "pyjelly/serialize/encode.py",
+                                      "pyjelly/serialize/streams.py", "pyjelly/serialize/flows.py"],
+                          "unit": "rdflib_serialize", "gen": "RdflibSerializeGen", "tie": "SerializersAgree", "props": ["C15"],
+                          "needs": ["lookup_enc", "lookup_dec", "options", "encode", "encode_stmt", "flows", "streams", "decode", "decoder_base", "stmt_layout",
+                                    "generic_sink", "generic_serialize", "generic_drivers", "rdflib_serialize", "rdflib_drivers"],
+                          "theorems": ["C15_source_serializers_agree_triples", "C15_source_serializers_agree_quads"]},
     "generic_sink": {"sources": ["pyjelly/integrations/generic/generic_sink.py"], "gen": "GenericSinkGen", "tie": "GenericTerms", "needs": [],
                      "theorems": ["source_term_eq_is_model"]},
     "generic_parse": {"sources": ["pyjelly/integrations/generic/parse.py", "pyjelly/integrations/generic/generic_sink.py", "pyjelly/parse/decode.py"],
